@@ -420,6 +420,13 @@ class Polynomial(Vector):
         else:
             poly_mask = self._mask_.copy()
 
+        # The coefficients underneath the mask are meaningless (they may be NaN
+        # or infinite, which eigvals() rejects); the polynomial x**order stands
+        # in for them in the copy. The roots found there are masked anyway.
+        if np.any(poly_mask):
+            coefficients[poly_mask] = 0.
+            coefficients[poly_mask,0] = 1.
+
     # Method stolen from np.roots; see
     # https://github.com/numpy/numpy/blob/v1.14.0/numpy/lib/polynomial.py#L153-L235
     #     p[0] * x**n + p[1] * x**(n-1) + ... + p[n-1]*x + p[n]
